@@ -20,7 +20,8 @@ From SK Require Import lib.Tok lib.LGraph model.C03_Model proof.C03_Spec proof.C
                        proof.C03_ExplicitH proof.C03_ExplicitShape proof.C03_ExplicitTotal proof.C03_Expand
                        proof.C03_Link proof.C03_Default proof.C03_Iso
                        proof.C03_Skeleton proof.C03_StripCounts
-                       proof.C03_Wiring proof.C03_WiringCount proof.C03_PairIds proof.C03_StripExact proof.C03_StripCor.
+                       proof.C03_Wiring proof.C03_WiringCount proof.C03_PairIds proof.C03_StripExact proof.C03_StripCor
+                       proof.C03_PairIdsComplete.
 Import ListNotations.
 Local Open Scope Z_scope.
 
@@ -406,8 +407,7 @@ Print Assumptions C03_explicitH_grouped_iff.
     TEMPLATE's own hydrogen transfers.  Default-mode rule preparation (template without h_pairs of its own): two rule
     atoms share a pair id only if both were bonded to ONE explicit hydrogen atom of the template; gluing copies the
     rule's pair ids onto the matched atoms and nothing else; hence two atoms of a proposed ITS share a pair id only if
-    they are the images of two template atoms bonded to one template hydrogen.  (Converse — every stripped shared
-    hydrogen does hand its id to all its heavy neighbours — correspondence only.) *)
+    they are the images of two template atoms bonded to one template hydrogen.  (Converse: [C03_default_pair_ids_complete].) *)
 Theorem C03_default_pair_ids : forall (tpl rc : its) (l r : molg),
   nodupb (node_ids tpl) = true -> (forall (k : N) (a : inode), In (k, a) (gnodes tpl) -> i_hp a = None) ->
   synrule tpl true = Some (rc, l, r) ->
@@ -416,6 +416,18 @@ Theorem C03_default_pair_ids : forall (tpl rc : its) (l r : molg),
     exists h : N, is_H_i tpl h = true /\ In x (nbrs tpl h) /\ In y (nbrs tpl h).
 Proof. exact synrule_default_pairs. Qed.
 Print Assumptions C03_default_pair_ids.
+
+(** ... and conversely (templates with the same element on both sides of every atom): every removed hydrogen has a
+    pair id, and EVERY non-hydrogen atom bonded to it in the template — on either side — carries that id in the rule.
+    So a donor and a recipient of one template hydrogen always land in one group of [C03_explicitH_wiring]. *)
+Theorem C03_default_pair_ids_complete : forall (tpl rc : its) (l r : molg),
+  nodupb (node_ids tpl) = true -> (forall (k : N) (a : inode), In (k, a) (gnodes tpl) -> a_el (iH a) = a_el (iG a)) ->
+  synrule tpl true = Some (rc, l, r) ->
+  forall h : N, is_H_i tpl h = true -> heavy_nbr (side0 iG eG tpl) h = true -> heavy_nbr (side0 iH eH tpl) h = true ->
+  exists p : N, forall x : N, In x (nbrs tpl h) -> is_H_i tpl x = false -> has_node tpl x = true ->
+                exists A : inode, label rc x = Some A /\ In p (hp_of A).
+Proof. exact synrule_default_pairs_complete. Qed.
+Print Assumptions C03_default_pair_ids_complete.
 
 Theorem C03_glue_pair_ids : forall (host : hostg) (rc : its) (m : mapping) (T : its) (a b : N),
   wf_hostb host = true -> wf_rcb rc = true -> match_rcb host rc m = true -> glue host rc m = Some T ->
